@@ -37,6 +37,9 @@ def gen(rng, tier):
            # the server's handler takes a while before it answers (so that a
            # call() can be waiting for its answer when the connection goes)
            'slow_ping': rng.random() < 0.4,
+           # two more simple clients in the same process, afterwards: each
+           # receives its own events only
+           'pair': rng.random() < 0.2,
            # the server greets every (re)connected client with an event that
            # travels right behind the CONNECT reply
            'welcome': rng.random() < 0.5,
@@ -115,6 +118,72 @@ class YieldList(list):
         if self._k is not None:
             self._k.yield_point('buf.bool')
         return len(self) > 0
+
+
+def pair_phase(w, v, SC, ckw, NS, is_async):
+    """Two further simple clients, A and B: events sent to A while B
+    connects and receives, and the other way round."""
+    made = []
+
+    def factory(*a, **k):
+        cl = w.add_client('p%d' % len(made), **k)
+        made.append(cl)
+        return cl
+    log = {}
+
+    def connect(name):
+        c = SC(**ckw)
+        c.client_class = factory
+        h = w.call(c.connect, 'http://s', transports=['websocket'],
+                   namespace=NS)
+        w.settle()
+        return c if h.exc is None and c.connected else None
+
+    def send(c, val):
+        w.api('s', 'emit', 'n', val, to=c.sid, namespace=NS)
+        w.settle()
+
+    def recv(name, c):
+        if is_async:
+            async def go():
+                try:
+                    return await c.receive(timeout=0.5)
+                except Exception as e:   # noqa
+                    return type(e).__name__
+        else:
+            def go():
+                try:
+                    return c.receive(timeout=0.5)
+                except Exception as e:   # noqa
+                    return type(e).__name__
+        h = w.call(go, _label=('pair-recv', name))
+        w.settle()
+        w.advance(0.6)
+        w.settle()
+        log.setdefault(name, []).append(h.result if h.done else 'BLOCKED')
+    a = connect('A')
+    if a is None:
+        return
+    send(a, 'a1')
+    b = connect('B')          # (must not disturb what A has buffered)
+    if b is None:
+        return
+    send(b, 'b1')
+    send(a, 'a2')
+    recv('B', b)
+    recv('A', a)
+    recv('A', a)
+    recv('B', b)
+    w.rec.count('app.two_more_simple_clients')
+    want = {'A': [['n', 'a1'], ['n', 'a2']], 'B': [['n', 'b1'],
+                                                   'TimeoutError']}
+    if log != want:
+        v.add('cross_talk_between_clients', 'two simple clients in one '
+              'process: A was sent a1, a2 and B was sent b1; receive() '
+              'returned %s' % log)
+    for c in (a, b):
+        w.call(c.disconnect)
+    w.settle()
 
 
 def run(case):
@@ -350,6 +419,9 @@ def _run(case, cfg, w):
         produce(kind, n)
     w.advance(12.0)
     w.settle()
+    if cfg.get('pair'):
+        welcome_on[0] = False
+        pair_phase(w, v, SC, ckw, NS, is_async)
     # ---- oracle -------------------------------------------------------------
     arrivals = [e for e in rec.events if e['kind'] == 'arrive']
     arr_items = [e['item'] for e in arrivals]
